@@ -397,30 +397,117 @@ func expDims(e *Exp, selfDims map[string]DimSet, callDims map[string]map[string]
 
 // expDeps computes the producer invocations an expression's value flows from.
 func expDeps(e *Exp, selfDeps map[string]DepSet, callDeps map[string]map[string]DepSet) DepSet {
-	var d DepSet
-	var walk func(e *Exp)
-	walk = func(e *Exp) {
-		if e == nil {
-			return
+	return fieldDeps(e, selfDeps, callDeps)[""]
+}
+
+// lookupFieldDeps finds, in a table keyed by "id", "id.f", "id.f.g", ..., the
+// dependencies of id projected along path: the entry of the most specific
+// known prefix is the value's own dependency set; entries below the full path
+// are returned relative to it.
+func lookupFieldDeps(tab map[string]DepSet, id string, path []string) map[string]DepSet {
+	res := map[string]DepSet{"": nil}
+	full := id
+	if len(path) > 0 {
+		full = id + "." + strings.Join(path, ".")
+	}
+	for n := len(path); n >= 0; n-- {
+		key := id
+		if n > 0 {
+			key = id + "." + strings.Join(path[:n], ".")
 		}
-		switch e.Kind {
-		case ERefSelf:
-			d = d.addAll(selfDeps[e.Id], "")
-		case ERefCall:
-			if len(e.Path) == 0 {
-				for _, x := range callDeps[e.Id] {
-					d = d.addAll(x, "")
-				}
-			} else {
-				d = d.addAll(callDeps[e.Id][e.Path[0]], "")
-			}
-		}
-		for _, x := range e.Elems {
-			walk(x)
+		if d, ok := tab[key]; ok {
+			res[""] = DepSet{}.addAll(d, "")
+			break
 		}
 	}
-	walk(e)
-	return d
+	for k, d := range tab {
+		if strings.HasPrefix(k, full+".") {
+			res[k[len(full)+1:]] = DepSet{}.addAll(d, "")
+		}
+	}
+	return res
+}
+
+// fieldDeps computes the producer invocations an expression's value flows
+// from, per member: "" is the whole value, "f" / "f.g" the member reached
+// through those struct fields (projecting through arrays and typed maps, as
+// MRO projection does). A consumer of x.f where x is bound to a struct
+// literal consumes only what that member is built from, not the producers of
+// its sibling members.
+func fieldDeps(e *Exp, selfDeps map[string]DepSet, callDeps map[string]map[string]DepSet) map[string]DepSet {
+	res := map[string]DepSet{"": nil}
+	if e == nil {
+		return res
+	}
+	switch e.Kind {
+	case ERefSelf:
+		if e.Id == "" {
+			return res
+		}
+		return lookupFieldDeps(selfDeps, e.Id, e.Path)
+	case ERefCall:
+		if len(e.Path) == 0 {
+			for k, d := range callDeps[e.Id] {
+				res[""] = res[""].addAll(d, "")
+				res[k] = DepSet{}.addAll(d, "")
+			}
+			return res
+		}
+		return lookupFieldDeps(callDeps[e.Id], e.Path[0], e.Path[1:])
+	case EStruct:
+		for i, x := range e.Elems {
+			if i >= len(e.Keys) {
+				break
+			}
+			sub := fieldDeps(x, selfDeps, callDeps)
+			for rel, d := range sub {
+				key := e.Keys[i]
+				if rel != "" {
+					key += "." + rel
+				}
+				res[key] = res[key].addAll(d, "")
+				if res[key] == nil {
+					res[key] = DepSet{}
+				}
+			}
+			res[""] = res[""].addAll(sub[""], "")
+		}
+		return res
+	case EArray, EMap:
+		subs := make([]map[string]DepSet, 0, len(e.Elems))
+		rels := map[string]bool{}
+		for _, x := range e.Elems {
+			sub := fieldDeps(x, selfDeps, callDeps)
+			subs = append(subs, sub)
+			for rel := range sub {
+				rels[rel] = true
+			}
+		}
+		for rel := range rels {
+			for _, sub := range subs {
+				// an element that knows nothing about this member
+				// contributes what its nearest known ancestor depends on
+				k := rel
+				for {
+					if d, ok := sub[k]; ok {
+						res[rel] = res[rel].addAll(d, "")
+						break
+					}
+					i := strings.LastIndexByte(k, '.')
+					if i < 0 {
+						res[rel] = res[rel].addAll(sub[""], "")
+						break
+					}
+					k = k[:i]
+				}
+			}
+			if res[rel] == nil && rel != "" {
+				res[rel] = DepSet{}
+			}
+		}
+		return res
+	}
+	return res
 }
 
 // Run evaluates the whole program.
@@ -541,7 +628,13 @@ func (m *Model) evalPipeline(pl *Pipeline, inputs map[string]interface{}, inputD
 		}
 		v, _ := m.evalExp(exp, inputs, selfTypes, calls, callTypes)
 		result[o.Name] = m.Conv(v, o.Type)
-		resDeps[o.Name] = expDeps(exp, inputDeps, callDeps)
+		for rel, fd := range fieldDeps(exp, inputDeps, callDeps) {
+			if rel == "" {
+				resDeps[o.Name] = fd
+			} else {
+				resDeps[o.Name+"."+rel] = fd
+			}
+		}
 		resDims[o.Name] = DimSet{}.addAll(expDims(exp, inputDims, callDims)).addAll(ctx.dims)
 	}
 	if ctx.disabled {
@@ -649,6 +742,11 @@ func (m *Model) evalCall(pl *Pipeline, c *Call, inputs map[string]interface{}, i
 			args[b.Id] = m.Conv(v, t)
 		}
 		argDeps[b.Id] = d
+		for rel, fd := range fieldDeps(b.Exp, inputDeps, callDeps) {
+			if rel != "" {
+				argDeps[b.Id+"."+rel] = fd
+			}
+		}
 		argDims[b.Id] = dm
 		bound[b.Id] = true
 	}
@@ -666,7 +764,13 @@ func (m *Model) evalCall(pl *Pipeline, c *Call, inputs map[string]interface{}, i
 				}
 				v, _ := m.evalExp(e, inputs, selfTypes, calls, callTypes)
 				args[in.Name] = m.Conv(v, inTypes[in.Name])
-				argDeps[in.Name] = expDeps(e, inputDeps, callDeps)
+				for rel, fd := range fieldDeps(e, inputDeps, callDeps) {
+					if rel == "" {
+						argDeps[in.Name] = fd
+					} else {
+						argDeps[in.Name+"."+rel] = fd
+					}
+				}
 				argDims[in.Name] = expDims(e, inputDims, callDims)
 				bound[in.Name] = true
 			}
